@@ -264,6 +264,10 @@ def main(modname, argv=None):
         return _replay_one(mod, a.replay, known)
 
     t0 = time.time()
+    os.makedirs(os.path.join(VERIF, "replays"), exist_ok=True)
+    for fn in os.listdir(os.path.join(VERIF, "replays")):
+        if fn.startswith(prop + "-") and fn.endswith(".json"):
+            os.remove(os.path.join(VERIF, "replays", fn))
     plan = mod.plan(a.tier)  # list of (part, nshards)
     if a.parts:
         want = set(a.parts.split(","))
